@@ -82,8 +82,10 @@ def instantiate(tmpl, mixed=False):
             x = [f'0{2001 + i}', 3001.5 + i, f's{i}x', f'{4001 + i}', 5001 + i, f'{i}\u00b2', 0, '', -(6001 + i), f'x{i} y'][k]
             if i % 7 == 3:
                 x = None        # a NULL among the values: bound like any other literal (alias and parentheses of the placeholder stay)
+            if i % 7 == 5:
+                x = bool(i % 2)         # TRUE / FALSE are their own literals, not 1 / 0
             vals.append(x)
-            lits.append('NULL' if x is None else "'" + x + "'" if isinstance(x, str) else str(x))
+            lits.append('NULL' if x is None else ('TRUE' if x else 'FALSE') if isinstance(x, bool) else "'" + x + "'" if isinstance(x, str) else str(x))
     v = tmpl
     for lit in lits:
         v = v.replace('{P}', lit, 1)
